@@ -30,7 +30,7 @@ def free_port():
 class Pool:
     """`start_cluster(dir, cores, host, port)` in its own process group."""
 
-    def __init__(self, workdir, cores, port=None, cwd=None):
+    def __init__(self, workdir, cores, port=None, cwd=None, nofile=None):
         """cwd: directory the pool is started from (a sub-directory of the project: gwf finds the project by
         searching upwards)."""
         self.port = port or free_port()
@@ -45,8 +45,15 @@ class Pool:
             code = ("from gwf.backends.local import start_cluster; "
                     f"start_cluster({workdir!r}, {int(cores)}, '127.0.0.1', {self.port})")
             cmd = [PY, "-c", code]
+        pre = None
+        if nofile:
+            # the usual limit on open files of a login shell (this machine's default is far higher)
+            def pre():
+                import resource
+
+                resource.setrlimit(resource.RLIMIT_NOFILE, (nofile, nofile))
         self.proc = subprocess.Popen(cmd, cwd=cwd or workdir, env=env, stdout=subprocess.DEVNULL,
-                                     stderr=subprocess.DEVNULL, start_new_session=True)
+                                     stderr=subprocess.DEVNULL, start_new_session=True, preexec_fn=pre)
         deadline = time.monotonic() + 20
         while time.monotonic() < deadline:
             try:
@@ -214,6 +221,8 @@ def run_real(case):
                 labels.add("cancel")
             t_r2_ns = None
             if case["second_wave"]:
+                if case.get("wave_gap_ms"):
+                    time.sleep(case["wave_gap_ms"] / 1000)  # the first wave has come to its end by then
                 t_r2_ns = time.time_ns()
                 r2 = proj.gwf(["run"])
                 if r2.code != 0 or r2.crashed:
